@@ -139,12 +139,13 @@ Local Opaque acc_save_value acc_load_value noise_state_dict noise_load_state_dic
 (* load (save y) into a freshly constructed system y0 whose live hyper-parameters equal y's *)
 Theorem load_save_roundtrip (y y0 : sys) : y_mech y0 = y_mech y ->
   f_oval (y_ns y0) = f_oval (y_ns y) -> f_oval (y_cs y0) = f_oval (y_cs y) ->
+  f_lam (y_ns y0) = f_lam (y_ns y) -> f_lam (y_cs y0) = f_lam (y_cs y) ->
   load_ckpt y0 (save_ckpt y true true true) true true true = Ok y.
 Proof.
-  intros Hm Hn Hc. unfold save_ckpt, load_ckpt. cbn.
+  intros Hm Hn Hc Ln Lc. unfold save_ckpt, load_ckpt. cbn.
   rewrite Hm. rewrite acc_value_roundtrip. cbn.
-  rewrite (noise_restore_exact_partial (y_ns y) (y_ns y0) Hn).
-  rewrite (clip_restore_exact_partial (y_cs y) (y_cs y0) Hc).
+  rewrite (noise_restore_exact_partial (y_ns y) (y_ns y0) Hn Ln).
+  rewrite (clip_restore_exact_partial (y_cs y) (y_cs y0) Hc Lc).
   destruct y, y0; cbn in *. subst. reflexivity.
 Qed.
 (* whatever the flags and the live values: module parameters and accountant history are restored *)
@@ -177,9 +178,10 @@ Definition run (y : sys) (bs : list B) : sys := fold_left train bs y.
 Theorem resume_refines_uninterrupted (fresh : sys) (bs1 bs2 : list B) :
   let y1 := run fresh bs1 in
   f_oval (y_ns fresh) = f_oval (y_ns y1) -> f_oval (y_cs fresh) = f_oval (y_cs y1) ->
+  f_lam (y_ns fresh) = f_lam (y_ns y1) -> f_lam (y_cs fresh) = f_lam (y_cs y1) ->
   exists y2, load_ckpt fresh (save_ckpt y1 true true true) true true true = Ok y2 /\ run y2 bs2 = run fresh (bs1 ++ bs2).
 Proof.
-  intros y1 Hn Hc. exists y1. split.
+  intros y1 Hn Hc Ln Lc. exists y1. split.
   - apply load_save_roundtrip; auto.
     subst y1. unfold run. generalize fresh. clear. induction bs1 as [|b bs IH]; intros fresh; [reflexivity|].
     cbn [fold_left]. rewrite <- IH. reflexivity.
